@@ -2164,6 +2164,10 @@ package apd
 //@ define LC(c: int): int = ite(65 <= c && c <= 90, c + 32, c)
 //@ define IsLetter(c: int): bool = (65 <= c && c <= 90) || (97 <= c && c <= 122)
 //@ define NumStart(s: []byte): bool = len(s) > 0 && ite(s[0] == 43 || s[0] == 45, len(s) > 1 && ((48 <= s[1] && s[1] <= 57) || s[1] == 46), (48 <= s[0] && s[0] <= 57) || s[0] == 46)
+//@ define SgnOff(s: []byte): int = ite(len(s) > 0 && (s[0] == 43 || s[0] == 45), 1, 0)
+//@ define NanHead(s: []byte, p: int): bool = len(s) >= p + 3 && CI(s, p, 110) && CI(s, p + 1, 97) && CI(s, p + 2, 110)
+//@ define SnanHead(s: []byte, p: int): bool = len(s) >= p + 4 && CI(s, p, 115) && CI(s, p + 1, 110) && CI(s, p + 2, 97) && CI(s, p + 3, 110)
+//@ define IsDigit(c: int): bool = 48 <= c && c <= 57
 //@ define BadChar(c: int): bool = 0 <= c && c < 128 && !(48 <= c && c <= 57) && c != 43 && c != 45 && c != 46 && !(65 <= c && c <= 90) && !(97 <= c && c <= 122)
 //@ define GramFrac(z: int, C: int, dot: bool, a: int): int = ite(dot, z + nd10(C) - a, 0)
 //@ define GramExp(z: int, C: int, dot: bool, a: int, hase: bool, esg: int, X: int): int = ite(hase, ite(esg == 45, -X, X), 0) - GramFrac(z, C, dot, a)
@@ -2208,6 +2212,9 @@ package apd
 //@   assert before strconv.ParseInt#1: {C14} [rejw_exp] Ascii(bytes(orig)) && 0 <= gk && gk < len(bytes(orig)) && gk - (len(bytes(orig)) - len(bytes(now(s)))) > i ==> bytes(arg0)[gk - (len(bytes(orig)) - len(bytes(now(s)))) - i - 1] == LC(bytes(orig)[gk])
 //@   assert before (*BigInt).SetString#1: {C14} [rejw_mant] Ascii(bytes(orig)) && NumStart(bytes(orig)) && 0 <= gk && gk < len(bytes(orig)) && IsLetter(bytes(orig)[gk]) && bytes(orig)[gk] != 69 && bytes(orig)[gk] != 101 ==> bytes(now(s))[gk - ite(bytes(orig)[0] == 43 || bytes(orig)[0] == 45, 1, 0)] == LC(bytes(orig)[gk]) || bytes(now(s))[gk - ite(bytes(orig)[0] == 43 || bytes(orig)[0] == 45, 1, 0) - 1] == LC(bytes(orig)[gk])
 //@   ensures {C14} [rej_letter] Ascii(bytes(s)) && NumStart(bytes(s)) && 0 <= gk && gk < len(bytes(s)) && IsLetter(bytes(s)[gk]) && bytes(s)[gk] != 69 && bytes(s)[gk] != 101 ==> ret1 != nil
+//@   ensures {C14} [rej_nan_tail] Ascii(bytes(s)) && NanHead(bytes(s), SgnOff(bytes(s))) && SgnOff(bytes(s)) + 3 <= gk && gk < len(bytes(s)) && !IsDigit(bytes(s)[gk]) ==> ret1 != nil
+//@   ensures {C14} [rej_snan_tail] Ascii(bytes(s)) && SnanHead(bytes(s), SgnOff(bytes(s))) && SgnOff(bytes(s)) + 4 <= gk && gk < len(bytes(s)) && !IsDigit(bytes(s)[gk]) ==> ret1 != nil
+//@   ensures {C14} [rej_word] Ascii(bytes(s)) && len(bytes(s)) > SgnOff(bytes(s)) && IsLetter(bytes(s)[SgnOff(bytes(s))]) && !InfText(bytes(s), SgnOff(bytes(s))) && !NanHead(bytes(s), SgnOff(bytes(s))) && !SnanHead(bytes(s), SgnOff(bytes(s))) ==> ret1 != nil
 //@   ensures {C14} [rej_char] Ascii(bytes(s)) && 0 <= gk && gk < len(bytes(s)) && BadChar(bytes(s)[gk]) ==> ret1 != nil
 //@   ensures {C14} [gr_inf] SgnText(bytes(s), gneg, gplus) && InfText(bytes(s), ite(gneg || gplus, 1, 0)) ==> ret1 == nil && ret0 == 0 && d.Form == Infinite && d.Negative == gneg && val(d.Coeff) == 0 && d.Exponent == 0
 //@   ensures {C14} [gr_nan] SgnText(bytes(s), gneg, gplus) && NanText(bytes(s), ite(gneg || gplus, 1, 0), gdot, gz, gC) && gC < 18446744073709551616 ==> ret1 == nil && ret0 == 0 && d.Form == NaN && d.Negative == gneg && val(d.Coeff) == 0 && d.Exponent == 0
